@@ -66,18 +66,22 @@ def _signature(r, inv):
 
 
 _CANON = dict(cp="srv", dp="ntp", da="t0l4", sa="t0l4", pt="empty", ext="none", l4="udp", ul="ok", sz="s48",
-              b0="v4c", ia="ok", org="match", meta="ok", ts="ok", sc="ok")
+              b0="v4c", ia="ok", org="match", meta="ok", ts="ok", sc="ok", pl="ok", tr="ok")
 
 
 def _scdims(c):
-    """The dimensions in which the SCION datagrams of a case deviate from the canonical datagram (python
-    only sorts cases into classes for sampling)."""
+    """The dimensions in which the SCION datagrams of a case deviate from the canonical datagrams, with the
+    values of the length dimensions (python only sorts cases into classes for sampling)."""
     res = []
-    for i, g in enumerate(c["rs"]):
-        d = tuple(sorted(k for k, v in _CANON.items() if g.get(k, "na") not in ("na", v)))
-        if "ul" in d:
-            # the UDP length matters where the payload is located through it (the authenticator's MAC)
-            d += (g.get("eo", "na"),)
+    for g in c["rs"]:
+        authok = g.get("ext") == "e2e" and g.get("eo") in ("auth28cok", "auth28sok")
+        d = tuple(sorted(k for k, v in _CANON.items() if g.get(k, "na") not in ("na", v) and not (k == "ext" and authok)))
+        lens = tuple("%s=%s" % (k, g[k]) for k in ("pl", "ul", "tr") if g.get(k, "na") not in ("na", "ok"))
+        if lens:
+            # the lengths matter where the payload is located through them (the authenticator's MAC)
+            d += lens + (g.get("eo", "na"),)
+        elif authok:
+            d += ("auth",)
         res.append(d)
     return (c["auth"], tuple(res))
 
@@ -89,15 +93,15 @@ def _select(ctx, cases):
     cap = 10 if ctx.quick else 400
     keep, pool = [], collections.defaultdict(list)
     for c in cases:
-        if c["out"] in ("hang", "hangoom"):
+        if c["kind"] in ("scsrv", "sccli"):
+            # SCION datagrams: t-wise (ScDev = 2, around the plain and the authenticated canonical datagram)
+            # enumeration; a seeded sample per (outcome, site, deviating dimensions, length values) class
+            pool[(c["kind"], c["out"], c["site"], _scdims(c))].append(c)
+        elif c["out"] in ("hang", "hangoom"):
             # class = pipeline, site, type of the non-advancing field, number of fields before it
             g = c["rs"][-1]
             f = g["fs"][-1]["t"] if g["fs"] and g["inner"] == "na" else "inner"
             pool[(c["kind"], c["out"], c["site"], f, min(len(g["fs"]), 2))].append(c)
-        elif c["kind"] in ("scsrv", "sccli"):
-            # SCION datagrams: t-wise (ScDev = 2) enumeration; a seeded sample per (outcome, site, deviating
-            # dimensions) class is replayed, every single-dimension deviation among them
-            pool[(c["kind"], c["out"], c["site"], _scdims(c))].append(c)
         elif c["kind"] == "csptpcli" and c["site"] == "read:deadline" and ctx.quick:
             # calls that end at their deadline cost the deadline; classes differ in where the silence starts
             pool[("csptpcli", "deadline", len(c["rs"]), c["rs"][0]["mt"])].append(c)
